@@ -36,7 +36,7 @@ MK = {  # how the harness makes a value of a result type carrying mark m
     "*Node": "&Node{M: %s}", "Expr": "Expr(&Node{M: %s})", "any": "any(&Node{M: %s})", "MyAny": "MyAny(&Node{M: %s})",
     "Box[int]": "Box[int]{V: %s}", "map[string]int": "map[string]int{\"k\": %s}", "Dict": "Dict{\"k\": %s}",
     "Fn": "mkfn(%s)", "NodeList": "NodeList{&Node{M: %s}}",
-    "NodePtr": "NodePtr(&Node{M: %s})", "func() int": "(func() int)(mkfn(%s))", "[]*Node": "[]*Node{&Node{M: %s}}",
+    "Token": "Token{Ty: %s}", "NodePtr": "NodePtr(&Node{M: %s})", "func() int": "(func() int)(mkfn(%s))", "[]*Node": "[]*Node{&Node{M: %s}}",
 }
 
 HARNESS = '''
@@ -223,6 +223,14 @@ def configs(quick, rng, tix=None, rel=None):
             add("z:%s->%s" % (rz, pz), "Dict", "Expr", rz, base_methods("Dict", "Expr", rz, "Dict", "[]Expr", pz))
     for ptok in ["Token", "any", "MyAny", "int", "Error"]:
         add("tok->%s" % ptok, "*Node", "Expr", "Dict", base_methods("*Node", "Expr", "Dict", "*Node", "[]Expr", "Dict", ptok))
+    # the parameter that receives the @error term's value (an Error, not a Token, although @error is a terminal)
+    for perr in ["Error", "Token", "any", "MyAny", "int", "*Node", "Expr"]:
+        ms = base_methods("*Node", "Expr", "Dict", "*Node", "[]Expr", "Dict")
+        ms[3] = method(4, "on_s__err", "s", [perr, "Token"], "int", 4)
+        add("err->%s" % perr, "*Node", "Expr", "Dict", ms)
+    # a rule whose value type is Token next to the @error production: (Token, Token) and (Error, Token) are different bindings
+    add("x:Token->Token", "Token", "Expr", "Dict", base_methods("Token", "Expr", "Dict", "Token", "[]Expr", "Dict"))
+    add("x:Token->any", "Token", "Expr", "Dict", base_methods("Token", "Expr", "Dict", "any", "[]Expr", "Dict"))
     # layouts
     b = lambda: base_methods("*Node", "Expr", "Dict", "Expr", "[]Expr", "Dict")
     ms = b(); ms.append(method(8, "on_s__x2", "s", ["*Node", "Token"], "int", 1)); add("layout:ambiguous", "*Node", "Expr", "Dict", ms)
@@ -274,7 +282,8 @@ def configs(quick, rng, tix=None, rel=None):
                                  "\tcase []*bast.Node:\n\t\treturn marks(len(x), func(i int) any { return x[i] })\n")
         out[-1]["foreign"] = True
     if quick:
-        keep = [c for c in out if c["id"].startswith("layout") or c["id"].startswith("imports") or c["id"].startswith("tok") or c["id"].startswith("compile")]
+        keep = [c for c in out if c["id"].startswith("layout") or c["id"].startswith("imports") or c["id"].startswith("tok") or c["id"].startswith("compile")
+                or c["id"].startswith("err->") or c["id"].startswith("x:Token")]
         rest = [c for c in out if c not in keep]
         # always keep the configurations where the term's value type is assignable to, but not identical with, the parameter type
         def interesting(c):
